@@ -33,17 +33,17 @@ var (
 // An error is returned if the CT extension is present but is not ASN.1 NULL as defined
 // by the spec.
 func IsPrecertificate(cert *x509.Certificate) (bool, error) {
+	found := false
 	for _, ext := range cert.Extensions {
 		if x509.OIDExtensionCTPoison.Equal(ext.Id) {
 			if !ext.Critical || !bytes.Equal(asn1.NullBytes, ext.Value) {
 				return false, fmt.Errorf("CT poison ext is not critical or invalid: %v", ext)
 			}
-
-			return true, nil
+			found = true
 		}
 	}
 
-	return false, nil
+	return found, nil
 }
 
 // ValidateChain takes the certificate chain as it was parsed from a JSON request. Ensures all
